@@ -356,6 +356,60 @@ func checkC14(c *km.Ctx) {
 		r.Add("R-C14-4", km.FuncName(vt), "rate-limit map update under the mutex", posOf(c, mu), totpMutex+" held", sprintf("%v", updHeld[mu]), updHeld[mu])
 	}
 	_ = nPure
+	// (c) nobody else forgets failures early: outside the validation path (validateUserTOTP and the helpers it
+	// calls) a rate-limit record is removed or overwritten only when it is older than the 24 h window after which
+	// validateUserTOTP itself would reset the failure count
+	own := map[*ssa.Function]bool{vt: true}
+	for _, ci := range km.CallsIn(vt) {
+		if g := km.StaticCallee(ci.Common()); g != nil && g.Pkg != nil && g.Pkg.Pkg.Path() == KMD {
+			own[g] = true
+		}
+	}
+	const resetWindow = 24 * 3600 * secondNS
+	olderThanWindow := func(k km.Conj) bool {
+		for _, f := range k.List() {
+			d, isC := km.ConstInt(f.Y)
+			if !isC || d < resetWindow || (f.Op != token.GTR && f.Op != token.GEQ) {
+				continue
+			}
+			if cl, ok := f.X.(*ssa.Call); ok {
+				n := km.CalleeFull(cl.Common())
+				if (n == "time.Since" || n == "(time.Time).Sub") && (mentionsFieldOfType(cl.Common().Args[len(cl.Common().Args)-1], rateInfoT) || mentionsFieldOfType(cl.Common().Args[0], rateInfoT)) {
+					return true
+				}
+			}
+		}
+		return false
+	}
+	for _, fn := range c.P.AllFuncs {
+		top := fn
+		for top.Parent() != nil {
+			top = top.Parent()
+		}
+		if fn.Pkg == nil || fn.Pkg.Pkg.Path() != KMD || own[top] {
+			continue
+		}
+		if _, exempt := initExempt[top.Name()]; exempt {
+			continue
+		}
+		km.Instrs(fn, func(in ssa.Instruction) {
+			isWrite := false
+			if mu, ok := in.(*ssa.MapUpdate); ok && mentionsField(mu.Map, "totpLocalRateLimit") {
+				isWrite = true
+			}
+			if cl, ok := in.(*ssa.Call); ok {
+				if b, ok := cl.Common().Value.(*ssa.Builtin); ok && b.Name() == "delete" && mentionsField(cl.Common().Args[0], "totpLocalRateLimit") {
+					isWrite = true
+				}
+			}
+			if !isWrite {
+				return
+			}
+			st := c.F.At(in)
+			ok := len(st) > 0 && st.All(olderThanWindow)
+			r.Add("R-C14-4", km.FuncName(fn), "rate-limit record dropped outside the validation path", posOf(c, in), "only a record older than the 24 h failure-count window may be removed or overwritten by other code", clipS(st.String(), 240), ok)
+		})
+	}
 }
 
 func lenRef(v ssa.Value) int {
